@@ -65,7 +65,7 @@ def run(c):
     ph["model_checking"] = round(time.time() - t0, 1)
     other_sid = A.real_other_session_id()
     # ---- RP: spec -> code
-    jobs = A.replay_jobs(rnd, wits, msgs, 22 if c.quick else 3500, weight, lambda w, m: must(w, m, A.primary(msgs)), "rp")
+    jobs = A.replay_jobs(rnd, wits, msgs, 22 if c.quick else 2800, weight, lambda w, m: must(w, m, A.primary(msgs)), "rp")
     # every key type x every signature variant x approving / partially approving application, from the start
     for pk in sorted(A.PK_VARIANTS):
         label = ["label_other", "label_garbage"]
@@ -120,7 +120,7 @@ def run(c):
     traces = A.execute(c, jobs, other_sid, "TLC-generated")
     ph["replay"] = round(time.time() - t0, 1)
     # ---- TV: code -> spec
-    jobs = [A.random_job(rnd, rnd.randint(1, 12), {"ok": 0.25, "gss": 0.6}, "tv") for _ in range(34 if c.quick else 2000)]
+    jobs = [A.random_job(rnd, rnd.randint(1, 12), {"ok": 0.25, "gss": 0.6}, "tv") for _ in range(34 if c.quick else 1600)]
     traces += A.execute(c, jobs, other_sid, "random")
     ph["random"] = round(time.time() - t0, 1)
     A.validate(c, traces, A.C14_CLAUSES)
